@@ -29,6 +29,7 @@ def _configs(tier):
         ("fallow-bunds-removed", dict(in_season="after", harvest_flag=True, mature=True, bunds=True)),
         ("season-cn-adjust-flag", dict(cn_adj=True)),
         ("season-mulch-inhibit", dict(mulches=True, sr_inhb=True, method=5)),
+        ("thermal-time-crop-season", dict(crop="WheatGDD")),
     ]
     if tier != "quick":
         variants += [("season-interval-irrigation-bunds-wt", dict(method=2, bunds=True, wt=1)),
@@ -144,8 +145,8 @@ def h_timestep(ctx, cfg):
     # ---- C06/C07 maturity, harvest, summary row
     wrote = len(outputs.final_stats.rows)
     if gs is True:
-        mat = G["dap"] >= float(crop.Maturity)
-        ctx.prove("C07:crop is mature exactly from the first day days-after-planting reaches maturity", (nc.crop_mature is True) == mat if not isinstance(mat, bool) else (nc.crop_mature is mat))
+        mat = (G["dap"] >= float(crop.Maturity)) if crop.CalendarType == 1 else (G["gdd_cum"] >= float(crop.Maturity))
+        ctx.prove("C07:crop is mature exactly from the first day days-after-planting (or cumulative degree days) reaches maturity", (nc.crop_mature is True) == mat if not isinstance(mat, bool) else (nc.crop_mature is mat))
         ends = Or(mat, nc.crop_dead is True, harvest == today + 1)
         ctx.prove("C06,C07:season ends (summary row written, harvest flag set) exactly at maturity, crop death or the latest harvest date",
                   And(ends, wrote == 1, nc.harvest_flag is True) if wrote else And(Not(ends), nc.harvest_flag is False))
